@@ -6,18 +6,22 @@ against the real parsers in sandboxed workers."""
 import os, re, itertools
 
 ID = 'C20'
-GENERATORS = ['gen_rip', 'gen_ripline']
+GENERATORS = ['gen_rip', 'gen_ripline', 'gen_igs']
 COQ_TARGETS = ['Props/C20.vo', 'Run/RunC20.vo']
 PROPS_MODULE = 'Props.C20'
 THEOREMS = ['base36_total', 'base36_non_digit_is_error', 'parse_step_safe', 'tokenizer_safe', 'arity_bound', 'params_in_range', 'tok_resync',
             'pstate_overflow_witness', 'row_loop_checked', 'row_guard_is_break', 'bar_rect_safe', 'put_pixel_safe', 'kernel_safe', 'kernel_seq_safe', 'rip_stream_safe',
             # extension 1: line family
             'line_canvas_generic', 'fill_x_generic', 'fill_y_generic', 'line_safe', 'rectangle_safe', 'draw_poly_safe', 'draw_poly_line_safe', 'line_cost',
-            'tokenizer_vec_range', 'kernel2_safe', 'kernel2_seq_safe', 'kernel2_modelled', 'rip_stream_safe2']
+            'tokenizer_vec_range', 'kernel2_safe', 'kernel2_seq_safe', 'kernel2_modelled', 'rip_stream_safe2',
+            # extension 2 / 3: IGS tokenizer, IGS pixel kernel
+            'igs_tokenizer_safe', 'igs_next_action_safe', 'igs_stream_safe', 'igs_loop_step_safe', 'igs_loop_progress', 'igs_loop_step0_stuck', 'igs_executor_invariant',
+            'igs_set_pixel_safe', 'igs_get_pixel_safe', 'igs_fill_rect_safe', 'igs_fill_rect_cost', 'igs_picture_safe', 'igs_kernel_safe', 'igs_stream_kernel_safe']
 SWEEP_LEMMAS = ['RipTokProofs.tables_ok (all 52 generated parse tables: every field index inside the struct, `_` arm is text or error, a continuing arm of a fixed-arity table has a successor, no empty fixed-arity table)',
                 'RipStreamProofs.kernel_weights_ok (no field of a kernel command is fed more than two base-36 digits)',
                 'RipTokProofs.lf_not_command (line feed is not a command letter in the three generated dispatch tables)',
                 'RipStream2Proofs.line_weights_ok (Line / Rectangle / polygon point count fields are fed two base-36 digits, LineStyle 2 + 4 + 2) and BgiLineProofs.line_patterns_shape / linestyle_from_range (5 line patterns, 16 pattern bits, LineStyle::from lands in 0..=4)',
+                'IgsKernelProofs.resolutions_ok / igs_patterns_shape / igs_pixels_ok (3 resolutions within 1..=1024, no empty fill pattern, 24 / 6 / 6 pattern tables, initial pixels below 16, 16-colour palettes) and the IgsTokProofs check that `&` is not a from_char letter',
                 'BgiProofs.fill_patterns_shape / ega_length / moduli / fillstyle_from_range / screen_size (generated constants: 13 patterns of 8 bytes, 64 EGA colours, colour moduli 16, FillStyle::from lands in 0..=12, window 640x350 <= 1024)']
 TRUSTED = ['Coq 8.16.1 kernel + vm_compute (table sweeps, model evaluation); no axioms (Print Assumptions: closed). Uint63 primitive integers are used ONLY by the canvas hash of Run/RunC20.v (stage C), in no theorem',
            'translator/gen_rip.py + vlib/rustsrc.py: dispatch tables, per-command parse tables, constants; token-for-token pins of parse_base_36 and the nine irregular parse functions',
@@ -307,6 +311,8 @@ def igs_special(table):
          'G#X 0,1,2,3:', 'G#X 99999:', 'G#X 7,0,1,2,3,4,5,6,7,8,9,10,11,12,13,14,15,16:', 'G#c 0,1:c 1,15:c 1,16:c 99999,99999:', 'G#d 1:d 99999:', 'G#i 0,1:i 1,99999:', 'G#l 0:l 1:l 2:l 3:l 4:l 99999:',
          'G#m 0,0:m 1,99999:m 2,5:m 3,5:m 4,5:', 'G#p 0,0:p 79,24:p 99999,99999:', 'G#r 0:r 1:r 2:', 'G#v 0:v 1:v 2:', 'G#w 0:w 1:w 2:', 'G#L 0,0,10,10:L_\n 10,10,20,\n20:', 'G#L 0,0,\n10,10:',
          'G#L 0 , 0 , 10 , 10 :', 'G#L>0,0,10,10:', 'G#L 0,0,10,10', 'G#L -1,-1,10,10:', 'G#L 0,,10:', 'G#L ,:', 'G#L:', 'G#:', 'G#L 2147483647,2147483648,99999999999,1:', 'G#W 2147483648,1,x@',
+         'G#&100,200,2147483647,0,L,4,0,0,1,1:', 'G#&1,3,1,0,L,4,+2147483647,0,0,0:', 'G#&1,3,1,0,L,4,--2147483648,0,0,0:', 'G#&1,3,1,0,L,4,!-2147483648,0,0,0:',
+         'G#&200,100,2147483647,0,L,4,0,0,1,1:', 'G#&0,2147483647,1,0,P,2,x,y:', 'G#&1,3,1,0,L,4,+2147483646,0,0,0:', 'G#&0,3,1,0,L,4,-2147483647,0,0,0:', 'G#&0,3,1,0,L,4,!2147483647,0,0,0:',
          'G#L 0,0,5,5:\nG#L 5,5,9,9:\n', 'G#L 0,0,5,5:L 5,5,9,9:', 'G#L 0,0,5,5:x', 'text G#L 0,0,5,5:text G', 'G#I 0:\rG#s 0:', 'GG#s 0:', 'G#G#s 0:']
     # a command or loop abandoned at every possible point, then (in the SAME stream, on the parser state the abandoned
     # one left behind) a well-formed loop and a well-formed command: stale tokenizer/loop state must not leak
@@ -440,6 +446,27 @@ def attribute(ctx, fails):
         if f['signature'].endswith(':?'): f['signature'] = f['signature'][:-1] + 'unattributed'
     fails[:] = [f for f in fails if not f.get('drop')]
 
+# loops whose length is known: (stream, number of executed steps the loop may take at most).  A loop still pending after
+# that many further get_next_action calls never ends (step 0): signature igs-loop-endless
+LOOP_BOUNDS = [('G#&0,3,1,0,L,4,0,0,1,1:', 3), ('G#&0,3000,1,0,C,2,2,3:', 3000), ('G#&0,3000,7,0,C,2,2,3:', 429), ('G#&3000,0,1,0,C,2,2,3:', 3000), ('G#&0,3,0,0,L,4,0,0,1,1:', 3),
+               ('G#&5,0,0,0,C,2,2,3:', 5), ('G#&0,0,0,0,C,2,2,3:', 0), ('G#&0,99999,99999,0,C,2,2,3:', 1), ('G#&0,3,2147483647,0,C,2,2,3:', 1), ('G#&7,7,0,0,C,2,2,3:', 0)]
+
+def loop_oracle(ctx):
+    cases = ['igsdrain %s %d' % (hx(s), n + 200) for s, n in LOOP_BOUNDS]
+    res = ctx.impl(cases, per_case_timeout=20, jobs=4)
+    fails = []
+    for (s, n), c, r in zip(LOOP_BOUNDS, cases, res):
+        if r[0] == 'ok':
+            steps, more, ended = r[1]
+            if not ended or steps + more + 1 > n + 1:
+                fails.append({'signature': 'igs-loop-endless', 'input': 'igs ' + hx(s), 'impl': r[1],
+                              'detail': '%r: the loop may run at most %d steps; after %d get_next_action calls it is %s' % (s, n, steps + more, 'finished' if ended else 'still pending')})
+        elif r[0] == 'panic':
+            fails.append({'signature': 'igs-panic:%s' % enclosing_fn(ctx.repo, r[1]), 'input': 'igs ' + hx(s), 'impl': list(r), 'detail': '%r panics at %s' % (s, r[1])})
+        else:
+            fails.append({'signature': 'igs-%s:&' % r[0], 'input': 'igs ' + hx(s), 'impl': list(r), 'detail': '%r: %s' % (s, r[1])})
+    return cases, fails
+
 # regression inputs of the defects repaired by fix: commits (must stay clean)
 REGRESSIONS = ['!|w000000000!', '!|w00000000 0|', '!|w1000000000|', '!|w0010000000|', '!|1B' + 'Z' * 37 + '|', '!|Q1S|', '!|QZZ|', '!|a051S|', '!|a0Z1R|']
 
@@ -479,6 +506,8 @@ def search(ctx, broken):
         if f: failures.append(f)
         elif len(s) > 3: nontriv.add(s)
     attribute(ctx, failures)
+    lcases, lfails = loop_oracle(ctx)
+    cases += lcases; failures += lfails
     failures.sort(key=lambda f: len(str(f['input'])))
     sig = {}
     for f in failures: sig[f['signature']] = sig.get(f['signature'], 0) + 1
@@ -629,6 +658,92 @@ def correspondence_lines(ctx, rng):
         if b == [-2]: cnt['line_streams_unmodelled'] += 1
     return cases, dis, nontriv, cnt
 
+# ---- extension 2 / 3 (IGS tokenizer + pixel kernel): streams over the modelled executor arms C Z A s R, loops over them, every
+# letter with a wrong parameter count, text commands cut by a newline, separators / continuation / junk
+IGS_ARITY_HINT = {'I': 1, '?': 1, 'k': 1, 'C': 2, 'S': 4, 'L': 4, 'D': 2, 'B': 5, 'U': 5, 'H': 1, 'V': 5, 'O': 3, 'Q': 4, 'J': 6, 'q': 1, 'A': 3, 'Z': 4, 't': 1, 'P': 2, 'E': 3,
+                  'T': 3, 'M': 1, 'R': 2, 'F': 2, 'c': 2, 'p': 2}
+def gen_igs_model_cmd(rng):
+    sx = lambda: str(rng.choice([0, 1, 2, 3, 5, 8, 13, 20, 33, 47, 60]))
+    sy = lambda: str(rng.choice([0, 1, 2, 3, 4, 6, 9, 12]))
+    r = rng.random()
+    if r < 0.22:
+        big = rng.random() < 0.12
+        v = [sx(), sy(), sx(), sy()]
+        if big:      # a wide rectangle only one or two rows high, never a tall one: every pixel costs a pass over the canvas list in Coq
+            v[rng.choice([0, 2])] = rng.choice(['99999', '2147483647', '4000000000', '319', '320', '639'])
+            v[3] = str(min(12, int(v[1]) + rng.choice([0, 0, 1])))
+        elif rng.random() < 0.04: v = [rng.choice(['0', '318']), rng.choice(['0', '190']), rng.choice(['1', '319', '99999']), rng.choice(['199', '200', '99999'])][:4]; v[0], v[2] = ('0', '1') if v[0] == '0' else ('318', v[2])
+        c = 'Z' + rng.choice(['', ' ']) + ','.join(v)
+    elif r < 0.36: c = 'C' + rng.choice(['', ' ']) + rng.choice(['0', '1', '2', '2', '2', '3', '4', '99']) + ',' + rng.choice(['0', '1', '2', '3', '7', '15', '16', '255'])
+    elif r < 0.48: c = 'A ' + rng.choice(['0', '1', '2', '2', '3', '3', '4', '5']) + ',' + rng.choice(['0', '1', '5', '6', '7', '12', '13', '24', '25', '99']) + ',' + rng.choice(['0', '1', '1', '2'])
+    elif r < 0.52: c = 's' + rng.choice(['', ' 0', ' 5', ' 1,2'])
+    elif r < 0.57: c = 'R ' + rng.choice(['0', '0', '1', '2', '3']) + ',' + rng.choice(['0', '1', '2', '3'])
+    elif r < 0.72:
+        # a letter with the wrong number of parameters: an error before anything happens
+        l = rng.choice(sorted(IGS_ARITY_HINT)); n = IGS_ARITY_HINT[l]
+        k = rng.choice([x for x in range(0, 8) if x != n])
+        c = l + ','.join(str(rng.choice([0, 1, 5, 50, 320])) for _ in range(k))
+    elif r < 0.78: return 'W ' + rng.choice(['1,2,abc', '10,10,Hello World', '1,2,', '1,2,a:b,c@d'][:3]) + '\nG#'
+    elif r < 0.94:
+        cmd = rng.choice('ZZZCCAs')
+        frm, to = rng.choice([(0, 3), (0, 6), (5, 0), (0, 0), (2, 9), (3, 4), (7, 2), (0, 12)])
+        step = rng.choice([1, 1, 1, 2, 3, 5])
+        if cmd == 'Z': par = [rng.choice(['x', 'y', '0', '5', '+2', '-3', '!7', '12', 'q', '', '+x', '-y', '007']) for _ in range(4)]
+        elif cmd == 'C': par = [rng.choice(['2', '0', '1', 'x']), rng.choice(['x', 'y', '3', '+1', '-15', '!16'])]
+        elif cmd == 'A': par = [rng.choice(['2', '3', 'x']), rng.choice(['x', 'y', '+1', '5']), rng.choice(['0', '1', 'x'])]
+        else: par = []
+        groups = rng.choice([1, 1, 1, 2])
+        npar = len(par) * groups
+        body = ':'.join(','.join(par) for _ in range(groups))
+        if rng.random() < 0.15: npar = rng.choice([0, 1, npar + 1, npar - 1 if npar else 0])
+        sep = rng.choice([',', ',', '@', '|'])
+        delay = rng.choice(['0', '0', '5', '99'])
+        return '&%d,%d,%d,%s,%s%s%d,%s:' % (frm, to, step, delay, cmd, sep, npar, body)
+    else: c = rng.choice(['L 0,0,5,5', 'P 3,3', 'B 0,0,9,9,1', 'F 1,1', 'X 0,1', 'g 1', 'n 1,2', '~0', '&', '&1,2', '&0,3,1,0,L', 'Z 1,2,3,4,'])
+    m = rng.random()
+    if m < 0.06: c = c.replace(',', ' , ', 1)
+    elif m < 0.10: c = c.replace(',', ',_\n', 1)
+    elif m < 0.14: c = c[:rng.randrange(1, len(c) + 1)] + rng.choice(['x', '-', '\n', '@', 'G#'])
+    term = ':' if rng.random() < 0.92 else rng.choice([':\nG#', ':\r\nG#', ':\n\nG#', ' :', '', ':G#'])
+    return c + term
+
+def gen_igs_model_stream(rng):
+    k = rng.choice([1, 2, 3, 5, 8, 12])
+    s = rng.choice(['G#', 'G#', 'G#', 'xG#', 'GG#', 'G\nG#', 'G#?', '']) + ''.join(gen_igs_model_cmd(rng) for _ in range(k))
+    if rng.random() < 0.1: s += rng.choice(['G', 'G#', 'text', 'G#Z 1,2'])
+    return s
+
+DIRECTED_I = ['G#C 2,3:Z 0,0,10,5:', 'G#&0,3,1,0,Z,4,x,0,x,5:', 'G#R 1,2:A 2,5,1:Z 3,3,40,9:', 'G#Z 0,0,99999,3:', 'G#Z 99999,99999,318,198:', 'G#Z 4000000000,0,5,5:', 'G#A 3,9,1:C 2,5:Z 1,1,33,9:',
+              'G#A 2,0,0:C 2,15:Z 0,0,47,12:', 'G#A 2,25,1:Z 0,0,5,5:', 'G#A 3,13,2:Z 0,0,5,5:', 'G#A 5,1,1:', 'G#C 2,16:Z 0,0,5,5:', 'G#C 4,1:', 'G#C 2:', 'G#s:Z 0,0,3,3:', 'G#R 1,0:Z 600,0,700,3:', 'G#R 0,3:', 'G#R 2,0:',
+              'G#R 1,1:R 0,0:Z 0,0,5,5:', 'G#W 1,2,abc\nG#C 2,3:Z 0,0,5,5:', 'G#&0,3,1,0,C,2,2,x:Z 0,0,9,2:', 'G#&5,0,2,0,Z,4,x,0,x,y:', 'G#&0,0,1,0,Z,4,0,0,1,1:', 'G#&0,3,1,0,~,4,0,0,1,1:', 'G#&0,3,1,0,Z,0,:',
+              'G#&0,6,1,0,Z,8,0,0,x,1:0,3,x,4:', 'G#&0,3,1,0,Z,4,q,0,1,1:', 'G#&0,3,1,0,Z,4,+x,-y,!2,y:', 'G#&0,3,1,5,Z,4,0,0,1,1:', 'G#&0,3,1,0,Z|4,0,0,1,1:', 'G#&0,3,1,0,Z,4,0,0,\n1,1:', 'G#&0,3,1,0,Z,x',
+              'G#&0,3,0,0,C,2,2,3:Z 0,0,2,2:', 'G#&100,200,2147483647,0,C,2,2,1:', 'G#&1,3,1,0,C,2,+2147483647,0:', 'G#&0,3,1,0,Z,4,0,0,1,1:&0,2,1,0,C,2,2,x:', 'G#L 1,2:', 'G#L:', 'G#?:', 'G#~:', 'G', 'G#', 'Gx', 'plain text',
+              'G#Z 0 , 0 , 5 , 5 :', 'G#Z>0,0,5,5:', 'G#Z 0,0,_\n5,5:', 'G#Z 0,0,5,5:\nG#C 2,4:Z 6,0,9,3:', 'G#Z 0,0,5,5:\n\nG#C 2,4:', 'G#Z 0,0,5,5:\rG#C 2,4:', 'G#Z 0,0,5,5:x', 'G#Z -1,0,5,5:', 'G#Z 0,,5:', 'G#Z ,:', 'G#:']
+
+def correspondence_igs(ctx, rng):
+    streams = [d.encode().decode('unicode_escape') for d in DIRECTED_I] + [gen_igs_model_stream(rng).encode().decode('unicode_escape') for _ in range(ctx.n(160, 2000))]
+    cases = ['igsobs ' + hx(s) for s in streams]
+    impl = ctx.impl(cases, per_case_timeout=10)
+    model = model_parallel(ctx, 'From IE Require Import Run.RunC20.\nLocal Open Scope Z_scope.', ['run_igs %s' % to_codes(s) for s in streams])
+    dis = []; nontriv = set(); cnt = {'igs_streams': len(streams), 'igs_unmodelled': 0, 'igs_with_loop_steps': 0, 'igs_with_errors': 0, 'igs_panic_both': 0}
+    for st, c, r, m in zip(streams, cases, impl, model):
+        a = r[1] if (r is not None and r[0] == 'ok') else ([-1] if (r is not None and r[0] == 'panic') else None)
+        b = m
+        if b is not None and len(b) >= 1 and b[0] == -1: b = [-1]
+        if b == [-2]:
+            cnt['igs_unmodelled'] += 1          # a command outside the kernel ran: nothing to compare (the generator keeps these rare)
+            if a is None: dis.append({'case': c, 'stream': st, 'impl': r, 'model': m})
+            continue
+        if a != b or a is None:
+            dis.append({'case': c, 'stream': st, 'impl': r if r is None or r[0] != 'ok' else r[1], 'model': m})
+        else:
+            nontriv.add(st)
+            if a == [-1]: cnt['igs_panic_both'] += 1
+            else:
+                if a[1] > 0: cnt['igs_with_loop_steps'] += 1
+                if a[0] > 0: cnt['igs_with_errors'] += 1
+    return cases, dis, nontriv, cnt
+
 def model_parallel(ctx, imports, exprs, ways=16, timeout=900):
     """ctx.model caps its shard count at one per 50 expressions; a full-screen fill costs seconds in Coq, so the expressions are
     dealt round-robin to `ways` concurrent ctx.model calls (each on a shallow copy of ctx with its own case-file prefix)"""
@@ -675,8 +790,11 @@ def correspondence(ctx):
     lcases, ldis, lnon, lcnt = correspondence_lines(ctx, rng)
     dist.update(lcnt)
     dist['model_errors'] += getattr(ctx, 'model_errors', [])[:2]
-    return {'cases': len(cases) + len(lcases), 'disagreements': dis + ldis, 'distinct_nontrivial': len(nontriv) + len(lnon), 'distribution': dist,
-            'samples': [cases[0], cases[len(DIRECTED_C) + 1], cases[-1], lcases[0], lcases[-1]]}
+    icases, idis, inon, icnt = correspondence_igs(ctx, rng)
+    dist.update(icnt)
+    dist['model_errors'] += getattr(ctx, 'model_errors', [])[:2]
+    return {'cases': len(cases) + len(lcases) + len(icases), 'disagreements': dis + ldis + idis, 'distinct_nontrivial': len(nontriv) + len(lnon) + len(inon), 'distribution': dist,
+            'samples': [cases[0], cases[len(DIRECTED_C) + 1], cases[-1], lcases[0], lcases[-1], icases[1], icases[-1]]}
 
 def replay(ctx, body):
     from vlib import driver
@@ -693,6 +811,18 @@ def replay(ctx, body):
         m = ctx.model('From IE Require Import Run.RunC20.\nLocal Open Scope Z_scope.', ['run_rip %s' % to_codes(stream)], timeout=300)[0]
         print('implementation state (ripobs):', o)
         print('model (run_rip; [-2] = reaches a command outside the modelled kernel, [-1; site] = model panic):', m)
+    if lang == 'igs':
+        o = ctx.impl(['igsobs ' + hx(stream)], per_case_timeout=10)[0]
+        m = ctx.model('From IE Require Import Run.RunC20.\nLocal Open Scope Z_scope.', ['run_igs %s' % to_codes(stream)], timeout=300)[0]
+        print('implementation (igsobs):', o)
+        print('model (run_igs; [-2] = a command outside the modelled executor ran, [-1; site] = model panic, site 32 = Loop::next_step arithmetic):', m)
+        bounds = dict(LOOP_BOUNDS)
+        if stream in bounds:
+            d = ctx.impl(['igsdrain %s %d' % (hx(stream), bounds[stream] + 200)], per_case_timeout=20)[0]
+            print('loop drain (steps during the stream, further steps, ended):', d)
+            if d[0] == 'ok' and (not d[1][2] or d[1][0] + d[1][1] > bounds[stream]):
+                print('oracle: FAIL igs-loop-endless: the loop may run at most %d steps' % bounds[stream])
+                return 1
     f = classify(ctx, lang, [], stream, r)
     if f:
         attribute(ctx, [f])
